@@ -20,6 +20,8 @@ def menus(r, tick):
                 [bl(mi, hi - tick)], [sl(mi, lo + tick)], [sl(mi, hi + tick / 2 + tick)], [bl(mi, lo - tick / 2)],
                 [bl(mi, 100.25)], [bm(mi)], [sm(mi)]]
     out += [[bl(0, 200), sl(1, 10)], [sl(2, 10)], [bl(2, 200)]]
+    # limit prices of exactly zero (accepted by pams with a warning) and just above it
+    out += [[sl(0, 0.0)], [bl(1, 0.0)], [sl(1, tick / 4)]]
     return out
 
 
